@@ -19,7 +19,7 @@ RULE = (
     "candidate plates"
 )
 ASSUMPTIONS = ["batches are subsets of the unobserved plates of the screen", "scores are finite or -inf (no NaN)"]
-REQUIRED = {"dbal_end_to_end_runs_with_batch": {"quick": 5, "thorough": 60}, "dbal_scores_vs_reference": {"quick": 30, "thorough": 500}, "coverage_checks": {"quick": 800, "thorough": 10000}, "conditioning_checks": {"quick": 1500, "thorough": 20000}, "selections_checked": {"quick": 1800, "thorough": 25000}, "cli_runs": {"quick": 30, "thorough": 500}, "selections_none": {"quick": 20, "thorough": 400}}
+REQUIRED = {"batches_with_observed_plates": {"quick": 40, "thorough": 500}, "cli_selections_with_policy_and_empty_batch": {"quick": 15, "thorough": 100}, "dbal_end_to_end_runs_with_batch": {"quick": 5, "thorough": 60}, "dbal_scores_vs_reference": {"quick": 30, "thorough": 500}, "coverage_checks": {"quick": 800, "thorough": 10000}, "conditioning_checks": {"quick": 1500, "thorough": 20000}, "selections_checked": {"quick": 1800, "thorough": 25000}, "cli_runs": {"quick": 30, "thorough": 500}, "selections_none": {"quick": 20, "thorough": 400}}
 N_SCREENS = {"quick": 960, "thorough": 12800}
 
 
@@ -122,6 +122,11 @@ def run_shard(rec, tier, seed, shard, nshards):
             n_chunks = int(rng.integers(1, min(P, 12) + 4))
             bsize = int(rng.integers(0, min(3, len(unobserved)) + 1))
             batch = sorted(int(x) for x in rng.choice(unobserved, size=bsize, replace=False)) if bsize else []
+            if observed and rng.random() < 0.35:
+                # plates selected earlier in this batch and revealed since (the retrospective simulation reveals each
+                # selection at once and keeps passing it as an exclude): they still belong to the batch
+                batch = sorted(set(batch) | set(int(x) for x in rng.choice(sorted(observed), size=int(rng.integers(1, min(2, len(observed)) + 1)), replace=False)))
+                rec.count("batches_with_observed_plates")
             batch_arg = batch if (batch or rng.random() < 0.5) else None
             cand = sorted(set(unobserved) - set(batch))
             # prescribed scores: finite, -inf, heavy ties
@@ -212,6 +217,16 @@ def run_shard(rec, tier, seed, shard, nshards):
                                 rec.check(not [p for p in ids_ if table[p] < table[best_]], "C06/holder/chunk-minimum", "minimum of a chunk holder is not minimal", w)
                         rec.count("holders_queried_before_combine")
                     comb = ChunkedScoresHolder.concat(holders)
+                    if len(holders) > 2 and rng.random() < 0.5:
+                        # any order includes any bracketing: a random binary tree of combine() calls
+                        parts = [ChunkedScoresHolder.load_h5(files[c]) for c in order]  # combine() works in place: fresh objects
+                        while len(parts) > 1:
+                            i_ = int(rng.integers(0, len(parts) - 1))
+                            parts[i_ : i_ + 2] = [parts[i_].combine(parts[i_ + 1])]
+                        rec.count("combinations_by_random_bracketing")
+                        a_ = sorted((int(p), float(s)) for p, s in zip(parts[0].plate_ids.tolist(), parts[0].scores.tolist()))
+                        b_ = sorted((int(p), float(s)) for p, s in zip(comb.plate_ids.tolist(), comb.scores.tolist()))
+                        rec.check(a_ == b_, "C06/combine/contents-differ", lambda: "a pairwise (tree-shaped) reduction of the chunk holders holds %r, the left fold %r" % (a_[:8], b_[:8]), dict(w, order=order))
                 except Exception as e:
                     rec.violation("C06/combine/raises", "load/concat in order %r raised %r" % (order, e), w)
                     continue
@@ -284,7 +299,7 @@ def run_shard(rec, tier, seed, shard, nshards):
                 rec.sample({"plates": w["plates"], "n_chunks": n_chunks, "batch": batch, "scored_per_chunk": [sorted(c) for c in scorer.calls], "score_style": style})
 
         # ---------------------------------------------------- CLI path on real files
-        n_cli = {"quick": 5, "thorough": 40}[tier]
+        n_cli = {"quick": 10, "thorough": 60}[tier]
         for ci in range(n_cli):
             kw = gen.realistic_screen_kwargs(rng, n_samples=(1, 3), n_rows=(6, 30), n_plates=(2, 7), p_dup=0.4, observed=str(rng.choice(["some", "none", "all"])), plate_per_sample=True)
             screen = Screen(**kw)
@@ -303,8 +318,11 @@ def run_shard(rec, tier, seed, shard, nshards):
             plate_rows = {int(p.plate_id): tuple(int(i) for i in np.flatnonzero(np.asarray(p.selection_vector))) for p in screen.plates}
             observed = {pid for pid, rows_ in plate_rows.items() if bool(screen.observation_mask[rows_[0]])}
             unobserved = sorted(set(plate_rows) - observed)
-            bsize = int(rng.integers(0, min(2, len(unobserved)) + 1))
+            bsize = int(rng.integers(0, min(2, len(unobserved)) + 1)) if rng.random() < 0.6 else 0
             batch = sorted(int(x) for x in rng.choice(unobserved, size=bsize, replace=False)) if bsize else []
+            if observed and rng.random() < 0.35:
+                batch = sorted(set(batch) | {int(rng.choice(sorted(observed)))})
+                rec.count("batches_with_observed_plates")
             cand = sorted(set(unobserved) - set(batch))
             n_chunks = int(rng.integers(1, len(plate_rows) + 3))
             outs = []
@@ -319,8 +337,10 @@ def run_shard(rec, tier, seed, shard, nshards):
                     outs.append(o)
                 order = [int(x) for x in rng.permutation(n_chunks)]
                 sel_out = os.path.join(tmp, "selected_plate")
-                k = int(rng.integers(1, 3))
-                use_pol = bool(rng.random() < 0.5)
+                k = int(rng.integers(1, 4))
+                use_pol = bool(rng.random() < 0.75)
+                if use_pol and not batch:
+                    rec.count("cli_selections_with_policy_and_empty_batch")
                 argv = ["--data", f_s, "--scores"] + [outs[c] for c in order] + ["--output", sel_out, "--seed", 1]
                 if use_pol:
                     argv += ["--policy", "KPerSamplePlatePolicy", "--policy-param", "k=%d" % k]
